@@ -53,22 +53,29 @@ def budget(tier):
     return {"cases": 5000, "shards": 16}
 
 
-def _twin(spec):
-    """Give the first typed list / dict a sibling of the same item kind with looser (no) item options: values
-    that are fine for one field and invalid for the other can then travel between them."""
-    keys = {c["key"] for c in spec["children"]}
-    for c in spec["children"]:
-        if c["kind"] == "list" and c.get("item") and c["item"].get("opts") and c["item"]["kind"] not in ("bytes", "secure", "challenge"):
-            free = next((k for k in worlds.KEY_POOL if k not in keys), None)
-            if free:
-                loose = dict(c, key=free, item=dict(c["item"], opts={}, validator=None, req=False), default={"mode": "none"}, req=False, validator=None, twin_of=c["key"])
-                return dict(spec, children=spec["children"] + [loose])
-        if c["kind"] == "dict" and c.get("valuef") and c["valuef"].get("opts") and c["valuef"]["kind"] not in ("bytes", "secure", "challenge"):
-            free = next((k for k in worlds.KEY_POOL if k not in keys), None)
-            if free:
-                loose = dict(c, key=free, valuef=dict(c["valuef"], opts={}, validator=None, req=False), default={"mode": "none"}, req=False, validator=None, twin_of=c["key"])
-                return dict(spec, children=spec["children"] + [loose])
-    return spec
+STRICT_ITEMS = [
+    {"kind": "int", "opts": {"min": 0, "max": 10}}, {"kind": "port", "opts": {}}, {"kind": "float", "opts": {"min": 0.5}},
+    {"kind": "str", "opts": {"choices": ["a", "b", "c"]}}, {"kind": "str", "opts": {"transform_case": "upper", "max_len": 3}},
+    {"kind": "ipv4", "opts": {}}, {"kind": "host", "opts": {"allow_ipv4": False}}, {"kind": "loglevel", "opts": {}},
+    {"kind": "ipv4net", "opts": {"max_prefix_len": 8}}, {"kind": "url", "opts": {}},
+]
+LOOSE_OF = {"int": "int", "port": "int", "float": "float"}
+
+
+def _twin(spec, which=0):
+    """Every schema gets a strict typed list and a loose one of the same stored Python type (a value that is fine
+    for one and invalid for the other can then travel between them), also as typed dicts."""
+    item = dict(STRICT_ITEMS[which % len(STRICT_ITEMS)], req=False, validator=None)
+    loose = {"kind": LOOSE_OF.get(item["kind"], "str"), "opts": {}, "req": False, "validator": None}
+    base = {"req": False, "validator": None, "opts": {}, "default": {"mode": "none"}}
+    extra = [
+        dict(base, kind="list", key="zzstrict", item=item),
+        dict(base, kind="list", key="zzloose", item=loose, twin_of="zzstrict"),
+        dict(base, kind="dict", key="zzdstrict", keyf=None, valuef=item),
+        dict(base, kind="dict", key="zzdloose", keyf=None, valuef=loose, twin_of="zzdstrict"),
+    ]
+    keep = [c for c in spec["children"] if not c["key"].startswith("zz")]
+    return dict(spec, children=keep + extra)
 
 
 def strategy(tier):
@@ -79,13 +86,16 @@ def strategy(tier):
         twins = [(i, nd) for i, (p, nd) in enumerate(leaves) if nd.get("twin_of") and len(p) == 1]
         if not twins:
             return st.fixed_dictionaries({"spec": st.just(spec), "ops": ops.op_strategy(spec, n)})
-        ti, tnode = twins[0]
-        si = next(i for i, (p, nd) in enumerate(leaves) if p == (tnode["twin_of"],))
-        # fill the loose twin, then offer what it holds to the strict field
-        transfer = st.fixed_dictionaries({"op": st.just("copy_from"), "leaf": st.just(si), "src": st.just(ti), "fill": ops.value_for(tnode),
+
+        def transfer_for(t):
+            ti, tnode = t
+            si = next(i for i, (p, nd) in enumerate(leaves) if p == (tnode["twin_of"],))
+            # fill the loose twin, then offer what it holds to the strict field (whole assignment or in-place merge)
+            return st.fixed_dictionaries({"op": st.just("copy_from"), "leaf": st.just(si), "src": st.just(ti), "fill": ops.value_for(tnode),
                                           "how": st.sampled_from(["assign", "assign", "extend", "iadd", "update"])})
+        transfer = st.sampled_from(twins).flatmap(transfer_for)
         return st.fixed_dictionaries({"spec": st.just(spec), "ops": st.lists(ops.weighted((3, base), (1, transfer)), min_size=2, max_size=n)})
-    return worlds.schema_spec(tier).map(_twin).flatmap(hist)
+    return st.tuples(worlds.schema_spec(tier), st.integers(0, len(STRICT_ITEMS) - 1)).map(lambda t: _twin(t[0], t[1])).flatmap(hist)
 
 
 def _without(snap, path):
